@@ -667,6 +667,8 @@ pub enum Outcome {
     Stalled,
     /// executor gave up (poll budget): live-lock
     Spin,
+    /// stopped at the requested idle point (`run_case_probe`)
+    ProbeStop,
 }
 
 pub struct RunResult {
@@ -684,6 +686,8 @@ pub struct RunResult {
 /// after this many consecutive polls that were re-triggered by a wake raised *during* the poll,
 /// one external event is delivered anyway (other tasks get to run between polls of a real runtime)
 pub const FAIR: usize = 4;
+/// polls of the quiescence probe (re-polled while the task wakes itself)
+pub const PROBE_POLLS: usize = 8;
 const MAX_POLLS: usize = 20_000;
 const TIME_STEP_MS: u64 = 250;
 const TIME_STEPS: usize = 80;
@@ -706,6 +710,12 @@ fn err_kind(e: &actix_http::error::DispatchError) -> String {
 }
 
 pub fn run_case(case: &Case) -> Option<RunResult> {
+    run_case_probe(case, None)
+}
+
+/// `probe_at = Some(k)`: stop at the k-th idle point (0-based) and poll the task once
+/// spuriously there; `RunResult::probe` tells whether that poll made progress.
+pub fn run_case_probe(case: &Case, probe_at: Option<usize>) -> Option<RunResult> {
     let wire = build_wire(&case.reqs)?;
     let wire_len = wire.len();
     let world: Shared = Rc::new(RefCell::new(World {
@@ -770,6 +780,7 @@ pub fn run_case(case: &Case) -> Option<RunResult> {
         let mut trace: Vec<String> = Vec::new();
         let mut polls = 0usize;
         let mut consecutive = 0usize;
+        let mut idle_points = 0usize;
         let outcome;
         'run: loop {
             flag.woken.store(false, Ordering::SeqCst);
@@ -807,6 +818,11 @@ pub fn run_case(case: &Case) -> Option<RunResult> {
             consecutive = 0;
             // idle point: the task is Pending and nothing has woken it
             trace.push(format!("I{}", world.borrow().waiters()));
+            idle_points += 1;
+            if probe_at == Some(idle_points - 1) {
+                outcome = Outcome::ProbeStop;
+                break 'run;
+            }
             loop {
                 if flag.woken.load(Ordering::SeqCst) {
                     continue 'run;
@@ -840,19 +856,46 @@ pub fn run_case(case: &Case) -> Option<RunResult> {
         // be able to make progress when polled spuriously (else it went to sleep on work it
         // could have done: a lost wake-up)
         let mut probe: Option<String> = None;
-        if matches!(outcome, Outcome::Idle | Outcome::Stalled) {
-            let before = (world.borrow().waiters(), world.borrow().log.accepted.len());
-            flag.woken.store(false, Ordering::SeqCst);
-            let mut cx = Context::from_waker(&waker);
-            let r = fut.as_mut().poll(&mut cx);
-            let after = (world.borrow().waiters(), world.borrow().log.accepted.len());
-            if r.is_ready() {
+        if matches!(outcome, Outcome::Idle | Outcome::Stalled | Outcome::ProbeStop) {
+            // Only what the peer can see counts as progress, and only on a side of the socket the
+            // task is not already waiting on: with a write/flush/shutdown waker registered,
+            // producing or even writing more is deliberately deferred (back-pressure), likewise
+            // reading while the read waker is registered.
+            let snap = |w: &World| {
+                let ws = w.waiters();
+                (
+                    ws.contains('r') || ws.contains('z'),
+                    ws.contains('w') || ws.contains('f') || ws.contains('s'),
+                    w.log.accepted.len(),
+                    (w.log.wire_read, w.log.read_eof_seen, w.log.read_reset_seen),
+                    w.log.shutdown_calls > 0,
+                )
+            };
+            let before = snap(&world.borrow());
+            let mut ready = false;
+            for _ in 0..PROBE_POLLS {
+                flag.woken.store(false, Ordering::SeqCst);
+                let mut cx = Context::from_waker(&waker);
+                if fut.as_mut().poll(&mut cx).is_ready() {
+                    ready = true;
+                    break;
+                }
+                if !flag.woken.load(Ordering::SeqCst) {
+                    break;
+                }
+            }
+            let after = snap(&world.borrow());
+            if ready && !before.1 {
                 probe = Some("completed".into());
-            } else if flag.woken.load(Ordering::SeqCst) {
-                probe = Some("woke-itself".into());
-            } else if before != after {
-                probe = Some(format!("waiters [{}]->[{}] accepted {}->{}", before.0, after.0, before.1, after.1));
-            } else {
+            } else if !before.0 && (after.0 || before.3 != after.3) {
+                probe = Some(format!("read side was not registered: read waiter {}->{}, input consumed {:?}->{:?}", before.0, after.0, before.3, after.3));
+            } else if !before.1 && (after.1 || before.2 != after.2 || before.4 != after.4) {
+                probe = Some(format!(
+                    "write side was not registered: write waiter {}->{}, accepted {}->{}, shutdown started {}->{}",
+                    before.1, after.1, before.2, after.2, before.4, after.4
+                ));
+            } else if !matches!(outcome, Outcome::ProbeStop) {
+                flag.woken.store(false, Ordering::SeqCst);
                 for _ in 0..TIME_STEPS {
                     tokio::time::advance(Duration::from_millis(TIME_STEP_MS)).await;
                     for _ in 0..3 {
